@@ -311,20 +311,19 @@ class AbstractDateTime(AnyAtomicType):
                 return value
 
             case YearMonthDuration():
-                month = op(self._dt.month - 1, other.months) % 12 + 1
-                year = self._year + op(self._dt.month - 1, other.months) // 12
-                day = adjust_day(year, month, self._dt.day)
-
-                if year > 0:
-                    dt = self._dt.replace(year=year, month=month, day=day)
-                elif isleap(year):
-                    dt = self._dt.replace(year=4, month=month, day=day)
-                else:
-                    dt = self._dt.replace(year=6, month=month, day=day)
-
-                kwargs = {k: getattr(dt, k) for k in self.pattern.groupindex.keys()}
+                # Count the months on the proleptic timeline (the internal numbering has no year 0)
+                months = (self._year if self._year > 0 else self._year + 1) * 12
+                months += op(self._dt.month - 1, other.months)
+                year, month = months // 12, months % 12 + 1
                 if year <= 0:
-                    kwargs['year'] = year
+                    year -= 1
+
+                # The leap years are the ones of the constructor
+                leap_year = year + bool(self._xsd_version != '1.0' and year < 0)
+                day = adjust_day(leap_year, month, self._dt.day)
+
+                kwargs = {k: getattr(self._dt, k) for k in self.pattern.groupindex.keys()}
+                kwargs.update(year=year, month=month, day=day)
                 return type(self)(**kwargs)
 
             case _:
